@@ -35,6 +35,7 @@ ASSUMPTIONS = [
     "settings lists end with a zero index; the over-long User-Agent continuation (C02) is not generated",
     "XorEncoded stages carry both the end-of-stub marker and a consistent size field and no decoy markers (C09/F-C09-1)",
     "PE artifacts (architecture, stamps) are recorded but not judged (C18 is not claimed)",
+    "images with more than 24 'ff ff ff' positions inside the end-of-stub marker search range are discarded: detection is quadratic in them (a cost, not a hang)",
 ]
 REAL = ["beacon.BeaconConfig.from_bytes/from_file/from_path", "beacon.iter_beacon_config_blocks",
         "beacon.find_beacon_config_bytes", "beacon.iter_settings", "utils.iter_find_needle", "xordecode.XorEncodedFile",
@@ -125,6 +126,8 @@ def generate(rng, tier, index):
             key = rng.choice(tried)
         settings = gen_settings(rng)
         pad = rng.choice(["full", "full", "min"])
+        if key == 0xFF:
+            pad = "min"   # a zero-padded block under key 0xff is a 4 KiB run of ff: quadratic XorEncoded detection, see make_filler
         blen = 4096 if pad == "full" else len(builder.encode_settings(settings, pad_to=None))
         # absolute target offsets in the scanned view, translated to payload-relative
         m = rng.choice([1, 2])
@@ -217,6 +220,12 @@ def execute(plan: dict) -> Result:
     exp = reference(plan, raw, decoded)
     if exp[0] == "ambiguous":
         res.discarded = "ambiguous_all_keys"
+        return res
+    # cost guard: every ff ff ff within the marker search range is a XorEncoded candidate that is validated with a
+    # 1024-offset MZ scan (and the whole detection is repeated up to three times per extraction): legal, but minutes
+    head = raw[:1024 + 2 * min(B, 16384)]
+    if sum(1 for i in range(len(head) - 2) if head[i] == 0xFF and head[i + 1] == 0xFF and head[i + 2] == 0xFF) > 24:
+        res.discarded = "pathological_ff_runs"
         return res
     keys = [bytes([k]) for k in call["xor_keys"]] if call["xor_keys"] else None
     nkeys = 256 if call["all"] else len(call["xor_keys"] or DEFAULT_KEYS)
